@@ -89,43 +89,54 @@ def Diagram.getItem (d : Diagram) (i : Int) : Except Err Diagram :=
 
 /-! ### Interchange, rewriting.py:9-78 -/
 
+/-- Lines 57-61 / 67-71: `box0` is to the left of `box1`.  Returns `(off0, off1, layer0, layer1)`. -/
+def leftCase (off0 off1 : Int) (l0 l1 : Layer) : Int × Int × Layer × Layer :=
+  let middle := pySlice l1.left (some ((l0.left ++ l0.box.cod).length : Int)) none
+  (off0, off1 - l0.box.cod.length + l0.box.dom.length,
+    ⟨l0.left, l0.box, middle ++ l1.box.cod ++ l1.right⟩,
+    ⟨l0.left ++ l0.box.dom ++ middle, l1.box, l1.right⟩)
+
+/-- Lines 62-66: `box0` is to the right of `box1`. -/
+def rightCase (off0 off1 : Int) (l0 l1 : Layer) : Int × Int × Layer × Layer :=
+  let middle := pySlice l0.left (some ((l1.left ++ l1.box.dom).length : Int)) none
+  (off0 - l1.box.dom.length + l1.box.cod.length, off1,
+    ⟨l1.left ++ l1.box.cod ++ middle, l0.box, l0.right⟩,
+    ⟨l1.left, l1.box, middle ++ l0.box.dom ++ l0.right⟩)
+
+/-- The branch selection of lines 57-73. -/
+def interchangeChoice (left : Bool) (off0 off1 : Int) (l0 l1 : Layer) :
+    Except Err (Int × Int × Layer × Layer) :=
+  if left && decide (off1 ≥ off0 + l0.box.cod.length) then .ok (leftCase off0 off1 l0 l1)
+  else if off0 ≥ off1 + l1.box.dom.length then .ok (rightCase off0 off1 l0 l1)
+  else if off1 ≥ off0 + l0.box.cod.length then .ok (leftCase off0 off1 l0 l1)
+  else .error .interchanger
+
+/-- Lines 74-78: rebuild the diagram with layers `i, i+1` replaced by `layer1, layer0`. -/
+def Diagram.splice (d : Diagram) (i : Nat) (off0 off1 : Int) (layer0 layer1 : Layer) :
+    Except Err Diagram :=
+  match d.layers.slice none (some i) with
+  | .error e => .error e
+  | .ok pre => match pre.thenLayer layer1 with
+    | .error e => .error e
+    | .ok a1 => match a1.thenLayer layer0 with
+      | .error e => .error e
+      | .ok a2 => match d.layers.slice (some ((i + 2 : Nat) : Int)) none with
+        | .error e => .error e
+        | .ok post => match a2.then post with
+          | .error e => .error e
+          | .ok ls => .ok ⟨d.dom, d.cod,
+              pySlice d.boxes none (some i) ++ [layer1.box, layer0.box]
+                ++ pySlice d.boxes (some ((i + 2 : Nat) : Int)) none,
+              pySlice d.offsets none (some i) ++ [off1, off0]
+                ++ pySlice d.offsets (some ((i + 2 : Nat) : Int)) none, ls⟩
+
 /-- The adjacent case (`j = i + 1` after the swap at line 51-52). -/
 def Diagram.interchangeAdj (d : Diagram) (i : Nat) (left : Bool) : Except Err Diagram :=
   match d.offsets[i]?, d.offsets[i+1]?, d.layers.boxes[i]?, d.layers.boxes[i+1]? with
   | some off0, some off1, some l0, some l1 =>
-    let left0 := l0.left; let box0 := l0.box; let right0 := l0.right
-    let left1 := l1.left; let box1 := l1.box; let right1 := l1.right
-    let leftCase : Except Err (Int × Int × Layer × Layer) :=
-      let off1' := off1 - box0.cod.length + box0.dom.length
-      let middle := pySlice left1 (some ((left0 ++ box0.cod).length : Int)) none
-      .ok (off0, off1', ⟨left0, box0, middle ++ box1.cod ++ right1⟩,
-                        ⟨left0 ++ box0.dom ++ middle, box1, right1⟩)
-    let rightCase : Except Err (Int × Int × Layer × Layer) :=
-      let off0' := off0 - box1.dom.length + box1.cod.length
-      let middle := pySlice left0 (some ((left1 ++ box1.dom).length : Int)) none
-      .ok (off0', off1, ⟨left1 ++ box1.cod ++ middle, box0, right0⟩,
-                        ⟨left1, box1, middle ++ box0.dom ++ right0⟩)
-    let choice : Except Err (Int × Int × Layer × Layer) :=
-      if left && decide (off1 ≥ off0 + box0.cod.length) then leftCase
-      else if off0 ≥ off1 + box1.dom.length then rightCase
-      else if off1 ≥ off0 + box0.cod.length then leftCase
-      else .error .interchanger
-    match choice with
+    match interchangeChoice left off0 off1 l0 l1 with
     | .error e => .error e
-    | .ok (off0, off1, layer0, layer1) =>
-      let boxes := pySlice d.boxes none (some i) ++ [box1, box0] ++ pySlice d.boxes (some (i + 2 : Nat)) none
-      let offsets := pySlice d.offsets none (some i) ++ [off1, off0] ++ pySlice d.offsets (some (i + 2 : Nat)) none
-      match d.layers.slice none (some i) with
-      | .error e => .error e
-      | .ok pre => match pre.thenLayer layer1 with
-        | .error e => .error e
-        | .ok a1 => match a1.thenLayer layer0 with
-          | .error e => .error e
-          | .ok a2 => match d.layers.slice (some (i + 2 : Nat)) none with
-            | .error e => .error e
-            | .ok post => match a2.then post with
-              | .error e => .error e
-              | .ok ls => .ok ⟨d.dom, d.cod, boxes, offsets, ls⟩
+    | .ok (off0', off1', layer0, layer1) => d.splice i off0' off1' layer0 layer1
   | _, _, _, _ => .error .index
 
 /-- Repeated adjacent moves downwards: boxes `i, i+1, …` (lines 46-50). -/
@@ -146,8 +157,8 @@ def interchangeUp (left : Bool) : Nat → Nat → Diagram → Except Err Diagram
 
 /-- `d.interchange(i, j, left)`. -/
 def Diagram.interchange (d : Diagram) (i j : Int) (left : Bool) : Except Err Diagram :=
-  let n : Int := d.boxes.length
-  if ¬ (0 ≤ i ∧ i < n) ∨ ¬ (0 ≤ j ∧ j < n) then .error .index
+  if ¬ (0 ≤ i ∧ i < (d.boxes.length : Int)) ∨ ¬ (0 ≤ j ∧ j < (d.boxes.length : Int)) then
+    .error .index
   else if i = j then .ok d
   else if j < i then interchangeUp left (i - j).toNat i.toNat d
   else interchangeDown left (j - i).toNat i.toNat d
